@@ -131,6 +131,11 @@ func wrapText(s string, l int, prefix string) string {
 			if pos < 0 {
 				pos = l - 1
 				suffix = "-"
+
+				// Do not break inside a multi-byte character
+				for pos > 1 && !utf8.RuneStart(line[pos]) {
+					pos--
+				}
 			}
 
 			if len(retline) != 0 {
